@@ -5,6 +5,8 @@ import (
 	"os"
 	"sort"
 	"strings"
+
+	"golang.org/x/tools/go/ssa"
 )
 
 func debugDump(w *World, what string) {
@@ -132,3 +134,32 @@ func init() {
 		}
 	}
 }
+
+func debugIdxSites(w *World) {
+	reach := w.reachPkg(w.decodeEntryPoints()...)
+	for _, fn := range w.SrcFuncs() {
+		if !reach[fn] && !reach[rootFn(fn)] {
+			continue
+		}
+		for _, b := range fn.Blocks {
+			for _, in := range b.Instrs {
+				switch x := in.(type) {
+				case *ssa.IndexAddr:
+					if _, isC := x.Index.(*ssa.Const); isC {
+						continue
+					}
+					fmt.Printf("%s %s: %s[%s] (%s)\n", w.instrPos(x), fnName(fn), x.X.Name(), x.Index.Name(), typeStr(x.X.Type()))
+				case *ssa.Index:
+					if _, isC := x.Index.(*ssa.Const); isC {
+						continue
+					}
+					fmt.Printf("%s %s: %s[%s] (%s) value\n", w.instrPos(x), fnName(fn), x.X.Name(), x.Index.Name(), typeStr(x.X.Type()))
+				case *ssa.Slice:
+					fmt.Printf("%s %s: slice %s (%s)\n", w.instrPos(x), fnName(fn), x.X.Name(), typeStr(x.X.Type()))
+				}
+			}
+		}
+	}
+}
+
+func init() { extraDumps["idxsites"] = debugIdxSites }
